@@ -41,7 +41,9 @@ package jsonapi
 //@ ensures unchanged-on-error: result != nil ==> typesSame(s)
 //@ ensures appended: result == nil ==> len(s.Types) == old(len(s.Types)) + 1 && s.Types[old(len(s.Types))] == typ
 //@ ensures prefix: result == nil ==> (forall i int :: 0 <= i && i < old(len(s.Types)) ==> s.Types[i] == old(s.Types[i]))
-//@ ensures wf: schemaWf(s)
+//@ ensures wf-types: allTypesWf(s)
+//@ ensures wf-unique: uniqueNames(s)
+//@ ensures wf-separate: separateMaps(s)
 //@ loop 0 invariant none-so-far: forall k int :: 0 <= k && k <= $idx ==> s.Types[k].Name != typ.Name
 
 //@ func Schema.RemoveType
@@ -51,7 +53,9 @@ package jsonapi
 //@ modifies obj[Schema](s), elems[Type](s.Types)
 //@ ensures removed: !hasType(s, typ)
 //@ ensures absent-noop: !old(hasType(s, typ)) ==> typesSame(s)
-//@ ensures wf: schemaWf(s)
+//@ ensures wf-types: allTypesWf(s)
+//@ ensures wf-unique: uniqueNames(s)
+//@ ensures wf-separate: separateMaps(s)
 //@ ensures length: old(hasType(s, typ)) ==> len(s.Types) == old(len(s.Types)) - 1
 //@ ensures before: forall i int, j int :: 0 <= i && i < old(len(s.Types)) && old(s.Types[i].Name) == typ && 0 <= j && j < i ==> s.Types[j] == old(s.Types[j])
 //@ ensures after: forall i int, j int :: 0 <= i && i < old(len(s.Types)) && old(s.Types[i].Name) == typ && i <= j && j < len(s.Types) ==> s.Types[j] == old(s.Types[j + 1])
@@ -67,7 +71,9 @@ package jsonapi
 //@ ensures added: result == nil ==> (forall i int :: 0 <= i && i < len(s.Types) && s.Types[i].Name == typ ==> attr.Name in s.Types[i].Attrs && s.Types[i].Attrs[attr.Name] == attr)
 //@ ensures header: s.Types == old(s.Types)
 //@ ensures names: forall i int :: 0 <= i && i < len(s.Types) ==> s.Types[i].Name == old(s.Types[i].Name) && s.Types[i].Rels == old(s.Types[i].Rels)
-//@ ensures wf: schemaWf(s)
+//@ ensures wf-types: allTypesWf(s)
+//@ ensures wf-unique: uniqueNames(s)
+//@ ensures wf-separate: separateMaps(s)
 //@ loop 0 invariant none-so-far: forall k int :: 0 <= k && k <= $idx ==> s.Types[k].Name != typ
 
 //@ func Schema.RemoveAttr
@@ -76,7 +82,9 @@ package jsonapi
 //@ modifies maps[map[string]Attr]
 //@ ensures removed: forall i int :: 0 <= i && i < len(s.Types) && s.Types[i].Name == typ ==> !(attr in s.Types[i].Attrs)
 //@ ensures absent-noop: !hasType(s, typ) ==> typesSame(s)
-//@ ensures wf: schemaWf(s)
+//@ ensures wf-types: allTypesWf(s)
+//@ ensures wf-unique: uniqueNames(s)
+//@ ensures wf-separate: separateMaps(s)
 //@ loop 0 invariant wf: allTypesWf(s)
 //@ loop 0 invariant done: forall k int :: 0 <= k && k <= $idx && s.Types[k].Name == typ ==> !(attr in s.Types[k].Attrs)
 //@ loop 0 invariant untouched: (forall k int :: 0 <= k && k <= $idx ==> s.Types[k].Name != typ) ==> typesSame(s)
@@ -91,7 +99,9 @@ package jsonapi
 //@ ensures added: result == nil ==> (forall i int :: 0 <= i && i < len(s.Types) && s.Types[i].Name == typ ==> rel.FromName in s.Types[i].Rels && s.Types[i].Rels[rel.FromName] == rel)
 //@ ensures header: s.Types == old(s.Types)
 //@ ensures names: forall i int :: 0 <= i && i < len(s.Types) ==> s.Types[i].Name == old(s.Types[i].Name) && s.Types[i].Attrs == old(s.Types[i].Attrs)
-//@ ensures wf: schemaWf(s)
+//@ ensures wf-types: allTypesWf(s)
+//@ ensures wf-unique: uniqueNames(s)
+//@ ensures wf-separate: separateMaps(s)
 //@ loop 0 invariant none-so-far: forall k int :: 0 <= k && k <= $idx ==> s.Types[k].Name != typ
 
 //@ func Schema.RemoveRel
@@ -100,7 +110,9 @@ package jsonapi
 //@ modifies maps[map[string]Rel]
 //@ ensures removed: forall i int :: 0 <= i && i < len(s.Types) && s.Types[i].Name == typ ==> !(rel in s.Types[i].Rels)
 //@ ensures absent-noop: !hasType(s, typ) ==> typesSame(s)
-//@ ensures wf: schemaWf(s)
+//@ ensures wf-types: allTypesWf(s)
+//@ ensures wf-unique: uniqueNames(s)
+//@ ensures wf-separate: separateMaps(s)
 //@ loop 0 invariant wf: allTypesWf(s)
 //@ loop 0 invariant done: forall k int :: 0 <= k && k <= $idx && s.Types[k].Name == typ ==> !(rel in s.Types[k].Rels)
 //@ loop 0 invariant untouched: (forall k int :: 0 <= k && k <= $idx ==> s.Types[k].Name != typ) ==> typesSame(s)
@@ -122,7 +134,9 @@ package jsonapi
 //@ ensures holds-from-inverted: result == nil && !relBefore(rel) ==> holdsRel(s, rel.FromType, rel.FromName, rel)
 //@ ensures holds-to-kept: result == nil && relBefore(rel) ==> holdsRel(s, rel.ToType, rel.ToName, relInv(rel))
 //@ ensures holds-to-inverted: result == nil && !relBefore(rel) ==> holdsRel(s, rel.ToType, rel.ToName, relInv(rel))
-//@ ensures wf: schemaWf(s)
+//@ ensures wf-types: allTypesWf(s)
+//@ ensures wf-unique: uniqueNames(s)
+//@ ensures wf-separate: separateMaps(s)
 //@ loop 0 invariant typ1-found: typ1 != nil ==> (exists k int :: 0 <= k && k <= $idx && typ1 == addrOf(s.Types, k) && s.Types[k].Name == rel1.FromType)
 //@ loop 0 invariant typ1-missing: typ1 == nil ==> (forall k int :: 0 <= k && k <= $idx ==> s.Types[k].Name != rel1.FromType)
 //@ loop 0 invariant typ2-found: typ2 != nil ==> (exists k int :: 0 <= k && k <= $idx && typ2 == addrOf(s.Types, k) && s.Types[k].Name == rel2.FromType)
